@@ -382,7 +382,10 @@ def r4_fallback(ctx):
         if isinstance(n, ast.Assign) and isinstance(n.value, ast.Call) and astx.call_name(n.value) in want.values():
             g = N.conj(astx.path_condition(f.node, n, pm))
             lits = _all_literals(g)
-            arg_ok = n.value.args and astx.is_name(n.value.args[0], p_prof)
+            # (the exact scores: a float request here lets summation noise separate candidates whose exact scores are equal,
+            # and the random fallback among the still-tied never fires)
+            extra = list(n.value.args[1:]) + [k.value for k in n.value.keywords]
+            arg_ok = n.value.args and astx.is_name(n.value.args[0], p_prof) and all(astx.is_const(x, False) for x in extra)
             fn = astx.call_name(n.value)
             code = [k for k, v in want.items() if v == fn][0]
             other = [k for k in want if k != code][0]
@@ -651,8 +654,11 @@ def r10_tiebreak_scores(ctx):
     sub = type(ctx)(ctx.prog, ctx.prop, ctx.tier)
     c04.r3_special_vectors(sub)
     n = 0
+    # ... summed exactly (C04.R2: allocation formula and exact zeros of score_profile_from_rankings): candidates are "still tied"
+    # after a scored tiebreak exactly when their exact scores are equal, which float accumulation does not preserve
+    c04.r2_allocation(sub)
     for o in sub.obs:
-        if (o.function or "").endswith(("first_place_votes", "borda_scores")):
+        if (o.function or "").endswith(("first_place_votes", "borda_scores", "score_profile_from_rankings")):
             o.rule = "C10.R10"
             ctx.obs.append(o)
             n += 1
@@ -661,7 +667,7 @@ def r10_tiebreak_scores(ctx):
 
 
 RULES = [
-    ("C10.R10", r10_tiebreak_scores, 2, "prerequisite: first_place_votes / borda_scores, which order a tied set under the scored tiebreaks, are the documented position scores (C04.R3)"),
+    ("C10.R10", r10_tiebreak_scores, 6, "prerequisite: first_place_votes / borda_scores, which order a tied set under the scored tiebreaks, are the documented position scores, summed exactly (C04.R3, C04.R2)"),
     ("C10.R1", r1_rng_census, 20, "RNG census: draws only at the documented sites; deterministic rules reach only tiebreak_set's draw"),
     ("C10.R2", r2_only_in_tie, 6, "every tiebreak_set call is dominated by a tie test on its argument (or the overshoot test)"),
     ("C10.R3", r3_recorded, 12, "every resolution flows, keyed by the tied set, into the recorded state's tiebreaks"),
@@ -744,4 +750,11 @@ BENIGN += [
     ("scored codes tested by membership, profile compared with None", [(UT, _TB_ELIF, '    elif profile is not None and tiebreak in ["borda", "first_place"]:\n')]),
     ("inner choice of the score by the other code", [(UT, '        if tiebreak == "borda":\n            tiebreak_scores = borda_scores(profile)\n        else:\n            tiebreak_scores = first_place_votes(profile)\n',
                                                      '        if tiebreak == "first_place":\n            tiebreak_scores = first_place_votes(profile)\n        else:\n            tiebreak_scores = borda_scores(profile)\n')]),
+]
+
+FAULTS += [
+    ("scored tiebreak asks for float scores", [(UT, "            tiebreak_scores = borda_scores(profile)\n", "            tiebreak_scores = borda_scores(profile, to_float=True)\n")], "C10.R4"),
+]
+BENIGN += [
+    ("scored tiebreak spells the exact request out", [(UT, "            tiebreak_scores = borda_scores(profile)\n", "            tiebreak_scores = borda_scores(profile, to_float=False)\n")]),
 ]
